@@ -2952,6 +2952,7 @@ static trait_setattr setattr_handlers[] = {
     setattr_generic,
     /*  The following entries are used by the __getstate__ method: */
     setattr_property0, setattr_property1, setattr_property2, setattr_property3,
+    setattr_validate_property,
     /*  End of __setstate__ method entries */
     NULL};
 
